@@ -69,38 +69,24 @@ func (w *World) skipSites(pkgPrefixes ...string) []skipSite {
 						return false
 					}
 				case *ast.IfStmt:
-					if loop == nil || !pureSkipBlock(info, s.Body) {
+					if loop == nil {
 						return true
 					}
-					a := w.exprAtomsDeep(fi, s.Cond)
-					var ks []string
-					for f := range a.Fields {
-						ks = append(ks, f)
+					sk := contSkipOf(info, s.Body, s.Cond)
+					if sk == nil {
+						return true
 					}
-					for cl := range a.Calls {
-						if cl = normCallName(strings.TrimPrefix(cl, "inlined:")); !isPlumbingCall(cl) {
-							ks = append(ks, "call:"+cl)
-						}
-					}
-					for l := range a.Lits {
-						ks = append(ks, "lit:"+l)
-					}
-					for id := range a.Idents {
-						if strings.HasPrefix(id, "const:") {
-							ks = append(ks, id)
-						}
-					}
-					for op := range a.Ops {
-						ks = append(ks, "op:"+op)
-					}
-					sort.Strings(ks)
-					cond := strings.Join(ks, ",")
+					deciding := sk.Deciding
 					over := exprString(loop.X)
 					if t := info.TypeOf(loop.X); t != nil {
 						over = short(types.TypeString(t, nil))
 					}
-					// a skip inside a new function belongs to the reviewed function(s) it is reached from
+					// a skip inside a new function belongs to the reviewed function(s) it is reached
+					// from, and is read with the arguments each of them passes
 					for _, host := range hostParts(w.hostKey(fi.Key)) {
+						var a *Atoms
+						w.withHost(host, func() { a = w.exprAtomsDeep(fi, deciding) })
+						cond := skipCondKey(a)
 						base := fmt.Sprintf("%s:range(%s):skip[%s]", host, over, cond)
 						count[base]++
 						key := base
@@ -116,6 +102,88 @@ func (w *World) skipSites(pkgPrefixes ...string) []skipSite {
 		walk(fi.Decl.Body, nil)
 	}
 	return out
+}
+
+// A skip is a `continue` that ends an iteration with nothing done since the last decision:
+// the statements before it in its block are log calls, or conditionals whose untaken side does
+// nothing (`if !isErr { append(...) }; continue` skips under isErr exactly like
+// `if isErr { continue }`). Deciding is the condition of that last conditional, or else the
+// innermost enclosing `if`.
+type contSkip struct {
+	Br       *ast.BranchStmt
+	Deciding ast.Expr   // the condition that decides this skip
+	Added    []ast.Expr // conditions of preceding conditionals passed on their do-nothing side (negated when the then-side acts)
+}
+
+// passThrough: statement st can be passed without doing anything; cond is the condition under
+// which that happens (nil: always).
+func passThrough(info *types.Info, st ast.Stmt) (ok bool, cond ast.Expr) {
+	switch x := st.(type) {
+	case *ast.ExprStmt:
+		cl, isCall := x.X.(*ast.CallExpr)
+		if !isCall {
+			return false, nil
+		}
+		nm := calleeOfCall(info, cl)
+		return strings.HasPrefix(nm, "infrastructure/logger.") || strings.HasPrefix(nm, "log."), nil
+	case *ast.IfStmt:
+		if x.Init != nil {
+			return false, nil
+		}
+		thenIdle := idleBlock(info, x.Body)
+		elseIdle := x.Else == nil
+		if eb, isBlock := x.Else.(*ast.BlockStmt); isBlock {
+			elseIdle = idleBlock(info, eb)
+		}
+		switch {
+		case thenIdle && elseIdle:
+			return true, nil
+		case elseIdle:
+			return true, &ast.UnaryExpr{Op: token.NOT, X: x.Cond, OpPos: x.Cond.Pos()}
+		case thenIdle:
+			return true, x.Cond
+		}
+	}
+	return false, nil
+}
+
+// idleBlock: every statement of b can be passed doing nothing, unconditionally, and b does
+// not leave the iteration.
+func idleBlock(info *types.Info, b *ast.BlockStmt) bool {
+	for _, st := range b.List {
+		if ok, cond := passThrough(info, st); !ok || cond != nil {
+			return false
+		}
+	}
+	return true
+}
+
+// contSkipOf: br is a `continue` that is the last statement of block b.
+func contSkipOf(info *types.Info, b *ast.BlockStmt, enclosing ast.Expr) *contSkip {
+	if len(b.List) == 0 {
+		return nil
+	}
+	br, ok := b.List[len(b.List)-1].(*ast.BranchStmt)
+	if !ok || br.Tok != token.CONTINUE {
+		return nil
+	}
+	cs := &contSkip{Br: br, Deciding: enclosing}
+	for i := len(b.List) - 2; i >= 0; i-- {
+		ok, cond := passThrough(info, b.List[i])
+		if !ok {
+			return nil
+		}
+		if cond != nil {
+			cs.Added = append(cs.Added, cond)
+		}
+	}
+	if len(cs.Added) > 0 {
+		cs.Deciding = cs.Added[0] // the conditional closest to the `continue`
+	}
+	if cs.Deciding == nil {
+		return nil
+	}
+	return cs
 }
 
 func pureSkipBlock(info *types.Info, b *ast.BlockStmt) bool {
@@ -177,6 +245,33 @@ func interestingElem(t types.Type) bool {
 }
 
 // ruleSkipInventory: every pure skip in the given packages is in the reviewed table.
+func skipCondKey(a *Atoms) string { return strings.Join(skipCondParts(a), ",") }
+
+func skipCondParts(a *Atoms) []string {
+	var ks []string
+	for f := range a.Fields {
+		ks = append(ks, f)
+	}
+	for cl := range a.Calls {
+		if cl = normCallName(strings.TrimPrefix(cl, "inlined:")); !isPlumbingCall(cl) {
+			ks = append(ks, "call:"+cl)
+		}
+	}
+	for l := range a.Lits {
+		ks = append(ks, "lit:"+l)
+	}
+	for id := range a.Idents {
+		if strings.HasPrefix(id, "const:") {
+			ks = append(ks, id)
+		}
+	}
+	for op := range a.Ops {
+		ks = append(ks, "op:"+op)
+	}
+	sort.Strings(ks)
+	return ks
+}
+
 func ruleSkipInventory(c *Ctx, r *Report, clause string, table map[string]string, floor int, pkgPrefixes ...string) {
 	w := c.W
 	ss := w.skipSites(pkgPrefixes...)
